@@ -311,3 +311,26 @@ def claims_bfs(run: core.Run, cases: list[dict], clauses: set[str], label: str, 
     run.bounds[label] = {'documents': len(cases), 'depth_to_fixpoint': depth, 'fixpoint': not frontier and not capped,
                          'max_states_in_one_document': max((len(s) for s in seen), default=0),
                          'total_states': sum(len(s) for s in seen)}
+
+
+def bfs_corpus(n: int, *, with_txn4: bool = False) -> list[dict]:
+    """(text, mode) pairs with at least one comment: all layouts <= n lines over the comment alphabet; with_txn4 adds the
+    4-line layouts that start with a transaction header (header + meta / comment / posting combinations)"""
+    texts = list(docs.texts(docs.L_COMMENT, n, nmin=1, variants=(('lf', True),)))
+    if with_txn4 and n < 4:
+        import itertools
+        hdr = docs.L_COMMENT[0]
+        body = [x for x in docs.L_COMMENT if x not in (hdr, docs.L_COMMENT[1])]
+        for seq in itertools.product(body, repeat=3):
+            texts.append(docs.join_lines([hdr, *seq], 'lf', True))
+    out = []
+    seen = set()
+    for t in texts:
+        if t in seen:
+            continue
+        seen.add(t)
+        for mode in (True, False):
+            root = docs.try_parse(t, M.File, mode)
+            if root is not None and any(isinstance(x, M.BlockComment) for x in root.token_store):
+                out.append({'text': t, 'mode': mode})
+    return out
